@@ -14,7 +14,7 @@
 (* ./m1 .. ./m8 can be appended to, ./d1/ is a maildir, ./x/m has no       *)
 (* directory.  Three slices of the input space (constant Slice), each      *)
 (* exhaustive in its own dimensions:                                       *)
-(*   "S" every home over 6-7 .qmail names x kinds x every extension        *)
+(*   "S" every home over 6 (Big: 7) .qmail names x 4 (5) kinds x 10 extensions *)
 (*   "I" every .qmail body of up to 3 (Big: 4) lines of the grammar, with  *)
 (*       and without x bit, with and without -n                            *)
 (*   "H" home modes x loop messages x hostile senders / recipients x owner *)
@@ -49,7 +49,7 @@ JoinLF(ls) == FlattenSeq([k \in 1..Len(ls) |-> ls[k] \o <<LF>>])
 \* ---- slice S: which file
 Q(s) == S_DOTQMAIL \o s
 SNames == << Q(<<>>), Q(<<45,97>>), Q(<<45,97,45>> \o S_DEFAULT), Q(<<45>> \o S_DEFAULT), Q(<<45,97,45,98>>), Q(<<45,97,58,98>>) >>
-          \o (IF Big THEN << Q(<<45,97,45,98,45>> \o S_DEFAULT), Q(<<45,65>>) >> ELSE <<>>)
+          \o (IF Big THEN << Q(<<45,97,45,98,45>> \o S_DEFAULT) >> ELSE <<>>)
 SKinds == {"absent", "r600", "r602", "dir"} \cup (IF Big THEN {"r700"} ELSE {})
 SFile(k, kind) == [nm |-> SNames[k], kind |-> (IF kind = "dir" THEN "dir" ELSE "reg"),
                    mode |-> (CASE kind = "r600" -> 384 [] kind = "r602" -> 386 [] kind = "r700" -> 448 [] OTHER -> 493),
